@@ -120,7 +120,14 @@ KINDS = {
     'agg_sum_ints': ('select SUM(a1), MIN(a1), MAX(a1), MEDIAN(a1)', {'int_cells': True}),
     'agg_nan': ('select MIN(a1), MAX(a1)', {'nan_values': True}),
     'agg_nan_group': ('select a2, MAX(a1), MIN(a1) group by a2', {'nan_values': True}),
+    # LEFT JOIN over join tables of different widths, with the width visible in the output (*, b.*, bNF): the padding of
+    # unmatched keys is per query
+    'left_join_star': ('select * left join B on a2 == b1', {'join': True, 'join_width': True}),
+    'left_join_bstar': ('select a1, b.* left join B on a2 == b1', {'join': True, 'join_width': True}),
+    'left_join_bnf': ('select a1, bNF, b2 left join B on a2 == b1', {'join': True, 'join_width': True}),
+    'update_left_join_bnf': ('update set a3 = bNF left join B on a2 == b1', {'join': True, 'join_width': True}),
 }
+LEFT_JOIN_WIDTH_KINDS = ['left_join_star', 'left_join_bstar', 'left_join_bnf', 'update_left_join_bnf']
 KIND_NAMES = sorted(KINDS)
 THREAD_KINDS = [k for k in KIND_NAMES]
 
@@ -156,6 +163,9 @@ def gen_op(rng, kind=None, api=None, max_rows=6, pool=40):
         if opt.get('join_b3_from_a1'):
             for jr in op['join_rows']:
                 jr[2] = rng.choice(['1', '2', '3', '10'])
+    if opt.get('join_width'):
+        width = rng.choice([1, 2, 2, 3, 4, 5])
+        op['join_rows'] = [(list(jr) + ['w4', 'w5'])[:width] for jr in op['join_rows']]
     if opt.get('join_missing'):
         op['join_missing'] = True
     if opt.get('header') or (rng.random() < 0.15 and not opt.get('ragged')):
@@ -172,6 +182,11 @@ def gen_op(rng, kind=None, api=None, max_rows=6, pool=40):
             # a table that lacks one of the names the query text may use: alone the query fails, which state left by an earlier
             # run of the same text over a complete header could hide
             op['header'] = [{'name': 'title', 'id': 'ident'}.get(h, h) if rng.random() < 0.6 else h for h in op['header']]
+    if opt.get('join_width'):
+        if 'join_header' in op:
+            op['join_header'] = ['key', 'jval', 'jtag', 'j4', 'j5'][:width]
+        if api in ('df', 'sqlite', 'csviter'):
+            op['api'] = rng.choice(['table', 'iter', 'csv'])
     if opt.get('init'):
         op['init'] = opt['init']
     if opt.get('csv_only'):
@@ -742,6 +757,11 @@ def generate(rng, tier, idx):
             ops.insert(rng.randrange(len(ops) + 1), gen_op(rng, 'err_join_table_missing', api=api, pool=pool))
             ops.append(gen_op(rng, 'join', api=api, pool=pool))
             ops = ops[:7]
+        if rng.random() < 0.1:
+            # LEFT JOINs over join tables of different widths in one interpreter
+            for k in [rng.choice(LEFT_JOIN_WIDTH_KINDS) for _ in range(rng.choice([2, 2, 3]))]:
+                ops.insert(rng.randrange(len(ops) + 1), gen_op(rng, k, pool=pool))
+            ops = ops[:8]
         ops = [dict(o) for o in ops]
         for i, o in enumerate(ops):
             if o['api'] == 'sqlite':
@@ -766,7 +786,7 @@ def generate(rng, tier, idx):
     if same_family:
         # bias towards pairs that share a mechanism (aggregation / unnest / like / join)
         fam = rng.choice([['agg_group', 'agg_plain', 'agg_median', 'agg_any', 'join_agg', 'agg_float', 'agg_float_group', 'err_agg_nonnumeric'], ['unnest', 'unnest2', 'err_two_unnest'],
-                          ['like', 'like2', 'where'], ['init_code', 'uses_foo', 'init_import', 'uses_math', 'init_code_raises'], ['join', 'left_join', 'join_two_keys', 'join_agg', 'join_header'],
+                          ['like', 'like2', 'where'], ['init_code', 'uses_foo', 'init_import', 'uses_math', 'init_code_raises'], ['join', 'left_join', 'join_two_keys', 'join_agg', 'join_header'], LEFT_JOIN_WIDTH_KINDS + ['left_join'],
                           ['err_runtime', 'agg_group', 'unnest', 'err_agg_misuse', 'init_code_raises'], ['update', 'update_nu', 'distinct', 'top', 'limit_distinct']])
         kinds = rng.sample(fam, min(n, len(fam)))
     ops = [gen_op(rng, k, api=rng.choice(['iter', 'iter', 'iter', 'csviter']), max_rows=4, pool=(40 if tier == 'quick' else 400)) for k in kinds]
